@@ -185,7 +185,12 @@ int main(int argc, char** argv)
                 if (!ok) throw harness_error("unknown op " + name);
                 if (op.contains("bind"))
                 {
-                    json v = op.contains("bind_field") ? ret.at(op["bind_field"].get<std::string>()) : ret;
+                    json v = ret;
+                    if (op.contains("bind_field"))
+                    {
+                        auto f = op["bind_field"].get<std::string>();
+                        v = (!f.empty() && f[0] == '/') ? ret.at(json::json_pointer(f)) : ret.at(f);
+                    }
                     if (op.contains("bind_index"))
                     {
                         size_t k = op["bind_index"].get<size_t>();
